@@ -6,6 +6,8 @@ set -u
 id="$1"; wt="$2"; checks="$3"; feat="${4:-}"
 export CARGO_NET_OFFLINE=true
 dst="/verif/seeded/$id"; mkdir -p "$dst"
+# the agents' worktrees share one stash: trust the delivered patch.diff, not the tree's current state
+if [ -s "$wt/patch.diff" ]; then ( cd "$wt" && git checkout -q -- src && git apply patch.diff ) || { echo "delivered patch.diff does not apply"; exit 2; }; fi
 ( cd "$wt" && git diff -- src > "$dst/patch.diff" )
 cp "$wt/tests/seed_demo.rs" "$dst/seed_demo.rs"
 cp "$wt/meta.txt" "$dst/agent_notes.txt" 2>/dev/null
